@@ -74,6 +74,7 @@ def deviations(n):
         out.append({'symerr': [m]})
         out.append({'generr': [m]})
         out.append({'wrerr': [m]})
+        out.append({'emptygen': [m]})   # the generator's text for m is empty: it is handed over and reported like any other
         # a good module followed, in the same file, by one whose symbol table cannot be built (and the other way round)
         out.append({'text': {m: 'twomods'}, 'symerr': [m + 'X']})
         out.append({'text': {m: 'twomods'}, 'symerr': [m]})
@@ -102,7 +103,7 @@ def merge(a, b):
                     if kk in tgt:
                         return None
                     tgt[kk] = vv
-            elif k in ('symerr', 'generr', 'wrerr'):
+            elif k in ('symerr', 'generr', 'wrerr', 'emptygen'):
                 out[k] = sorted(set(out.get(k, []) + v))
             elif k == 'nsrc':
                 out[k] = max(out.get(k, 1), v)
@@ -260,6 +261,7 @@ class FailureAndRepair(object):
                 b[idx]['ans'][m2] = 'has'
                 seconds.append({'borrowers': b})
             seconds.append({'searchers': [{'ans': {m2: 'fresh'}}]})
+            seconds.append({'borrowers': [{'texts': False, 'ans': {m2: 'hasempty'}}, {'texts': True, 'ans': {m2: 'hasempty'}}]})
             for fi in range(6):
                 seconds.append(self._fail(fi, m2))
         for si, sec in enumerate(seconds):
@@ -284,6 +286,97 @@ class FailureAndRepair(object):
 
     def run_case(self, case):
         return run(case, 'C07|failure-plus')
+
+
+class SeveralPerFile(object):
+    """Files that hold several modules, across two sources: a broken module next to a sound file mate (either order), two copies
+    of one module in a file (broken + sound, either order), a file that carries a copy - sound or broken - of ANOTHER module,
+    a module that exists both as a file of its own and as a file mate.  Up to two of the four (source, file name) slots
+    deviate from 'source 0 holds a healthy A and a healthy B'."""
+    case_timeout = 10
+    name = 'several-modules-per-file'
+    prefix = 'C07'
+    describe = ('2 sources x file names A, B; each (source, name) slot one of: absent, healthy, broken module + sound mate (2 orders), '
+                'broken + sound copy of the same module (2 orders), healthy + sound / broken copy of the OTHER module, duplicate '
+                'symbol, two sound modules; every assignment with <=2 slots off the default x A imports B or not (used or only '
+                'listed) x 4 requests x ignoreErrors x noDeps x no borrower / borrower holding A / holding B')
+
+    KINDS = ['absent', 'healthy', 'brokenfirst', 'brokenlast', 'copies-bs', 'copies-sb', 'plus', 'brokenplus', 'dupsym', 'twomods']
+    SLOTS = ['A0', 'B0', 'A1', 'B1']
+    DEFAULT = {'A0': 'healthy', 'B0': 'healthy', 'A1': 'absent', 'B1': 'absent'}
+
+    def blocks(self, tier):
+        out = [{'dev': []}]
+        for i, sl in enumerate(self.SLOTS):
+            for k in self.KINDS:
+                if k != self.DEFAULT[sl]:
+                    out.append({'dev': [[sl, k]]})
+        for (i, a), (j, b) in itertools.combinations(list(enumerate(self.SLOTS)), 2):
+            for ka in self.KINDS:
+                if ka == self.DEFAULT[a]:
+                    continue
+                out.append({'dev': [[a, ka], [b, None]]})   # the second slot's kinds are the cases of the block
+        return out
+
+    def worlds(self, assign):
+        src, text = {}, {}
+        for sl, k in assign.items():
+            m, sidx = sl[0], int(sl[1])
+            other = 'B' if m == 'A' else 'A'
+            if k == 'absent':
+                src[sl] = 'notfound'
+                continue
+            src[sl] = 'ok'
+            text[sl] = {'plus': 'plus' + other, 'brokenplus': 'brokenplus' + other}.get(k, k)
+        for edges, used in (([], 0), ([['A', 'B']], 0), ([['A', 'B']], 1)):
+            for req in (['A'], ['B'], ['A', 'B'], ['B', 'A']):
+                for ie in (False, True):
+                    for nd in (False, True):
+                        for bor in (None, 'A', 'B'):
+                            w = {'n': 2, 'edges': edges, 'used': used, 'req': req, 'nsrc': 2, 'src': dict(src), 'text': dict(text),
+                                 'variant': {'A0': 0, 'A1': 1, 'B0': 0, 'B1': 1}}
+                            o = {}
+                            if ie:
+                                o['ignoreErrors'] = True
+                            if nd:
+                                o['noDeps'] = True
+                            if o:
+                                w['opts'] = o
+                            if bor:
+                                w['borrowers'] = [{'texts': False, 'ans': {bor: 'has'}}]
+                            if self.select(w):
+                                yield w
+
+    def select(self, world):
+        return True
+
+    def cases(self, block, tier):
+        dev = block['dev']
+        if dev and dev[-1][1] is None:
+            sl = dev[-1][0]
+            for k in self.KINDS:
+                if k == self.DEFAULT[sl]:
+                    continue
+                assign = dict(self.DEFAULT)
+                assign[dev[0][0]] = dev[0][1]
+                assign[sl] = k
+                for w in self.worlds(assign):
+                    yield w
+        else:
+            assign = dict(self.DEFAULT)
+            for sl, k in dev:
+                assign[sl] = k
+            for w in self.worlds(assign):
+                yield w
+
+    def extra(self, world, obs, sigbase):
+        return []
+
+    def run_case(self, case):
+        sigbase = '%s|several-per-file' % self.prefix
+        obs = H.run_world(case)
+        vs = H.judge(case, obs, sigbase) + self.extra(case, obs, sigbase)
+        return H.observation_key(obs), vs, len(obs['log'])
 
 
 # --------------------------------------------------------------------------- real readers, adversarial octets
@@ -488,4 +581,4 @@ class SemanticOddities(object):
             vs.append(('%s|status-and-hand-over-disagree' % sig, '%r written %r' % (good, sorted(written))))
         return repr(sorted((k, str(v)) for k, v in res.items())), vs, 1
 
-FAMILIES = [NoDeviation(), OneDeviation(), TwoDeviations(), FailureAndRepair(), FilesOnDisk(), SemanticOddities()]
+FAMILIES = [SeveralPerFile(), NoDeviation(), OneDeviation(), TwoDeviations(), FailureAndRepair(), FilesOnDisk(), SemanticOddities()]
